@@ -730,7 +730,7 @@ private:
 			return *this;
 		}
 		bool sign = (rhs < 0) ? true : false;
-		long long v = sign ? -rhs : rhs; // project to positive side of the projective reals
+		long long v = sign ? static_cast<long long>(0ull - static_cast<unsigned long long>(rhs)) : rhs; // project to positive side of the projective reals
 		uint8_t raw = 0;
 		if (v > 48 || v == rhs) { // +-maxpos
 			raw = 0x7F;
